@@ -359,3 +359,47 @@ def closure_env_field(origin):
         f = [e["f"] for e in o["proj"] if isinstance(e, dict) and "f" in e]
         return f[0] if f else None
     return None
+
+
+def strip_generics(x):
+    out, depth = [], 0
+    for ch in x:
+        if ch == "<":
+            depth += 1
+        elif ch == ">":
+            depth -= 1
+        elif depth == 0:
+            out.append(ch)
+    return "".join(out).replace("::::", "::")
+
+
+def short(c):
+    """`alloc::vec::Vec::<T, A>::push` -> `Vec::push`; `<X as a::Trait<I>>::m` -> `Trait::m`"""
+    if c is None:
+        return None
+    if c.startswith("<") and " as " in c:
+        depth, end = 0, None
+        for i, ch in enumerate(c):
+            if ch == "<":
+                depth += 1
+            elif ch == ">":
+                depth -= 1
+                if depth == 0:
+                    end = i
+                    break
+        inner = c[1:end]
+        # split at the top-level " as "
+        depth, cut = 0, None
+        for i, ch in enumerate(inner):
+            if ch == "<":
+                depth += 1
+            elif ch == ">":
+                depth -= 1
+            elif depth == 0 and inner.startswith(" as ", i):
+                cut = i
+        trait = strip_generics(inner[cut + 4:]) if cut is not None else strip_generics(inner)
+        return trait.rsplit("::", 1)[-1] + c[end + 1:]
+    parts = [x for x in strip_generics(c).split("::") if x]
+    return "::".join(parts[-2:]) if len(parts) >= 2 else c
+
+
